@@ -976,8 +976,64 @@ impl Check for StopCheck {
             run.set("leaf_slots", *w.pick(&[3, 3, 4]));
             run.set("parents", w.below(3) as i64);
         }
+        let two_step_fold = w.chance(1, 4);
+        if two_step_fold {
+            // a start term that grows in the first iteration and folds in the second: a redex that
+            // only appears after the first rewrite (neg (add (neg y) 0)) -> (neg (neg y)) -> y makes two
+            // copies of a context congruent one iteration after the commutativity rules added nodes
+            let y = Tm::leaf("var", vec![0]);
+            let n1 = |a: Tm| Tm::node("neg", vec![], vec![(vec![], a)]);
+            let n2 = |name: &str, a: Tm, b: Tm| Tm::node(name, vec![], vec![(vec![], a), (vec![], b)]);
+            let hidden = n1(n2("add", n1(y.clone()), Tm::pay("num", 0)));
+            let mut binder = 700;
+            let ctx = |x: Tm, w: &mut Rng, binder: &mut S| {
+                let mut t = x;
+                for _ in 0..w.range(1, 3) {
+                    let other = random_la(w, &[1], 1, binder);
+                    t = if w.chance(1, 2) { n2("mul", t, other) } else { n2("add", other, t) };
+                }
+                t
+            };
+            let mut w2 = Rng::stream(seed, "fold-context");
+            let mut w3 = Rng::stream(seed, "fold-context");
+            let mut b2 = binder;
+            let a = ctx(hidden, &mut w2, &mut binder);
+            let b = ctx(y, &mut w3, &mut b2);
+            run.ops.retain(|o| o.name != "add" && o.name != "rules");
+            run.ops.insert(0, Op::new("add").t(n2(if w.chance(1, 2) { "add" } else { "mul" }, a, b)));
+            let pool = rule_pool(run.get("p") as u32);
+            let idx = |n: &str| pool.iter().position(|r| r.name == n).unwrap() as i64;
+            let mut r = Op::new("rules").i(idx("add-zero")).i(idx("neg-neg"));
+            for n in ["add-comm", "mul-comm", "distr", "add-assoc"] {
+                if w.chance(1, 2) {
+                    r = r.i(idx(n));
+                }
+            }
+            run.ops.push(r);
+        }
         run.set("iter_limit", *w.pick(&[0, 1, 2, 3, 5, 8]));
         run.set("node_limit", *w.pick(&[0, 5, 20, 60, 200, 100000]));
+        if w.chance(1, 2) {
+            // a limit in the range of the sizes these runs actually reach: the node count is not
+            // monotone (unions fold congruent nodes), so it can cross the limit in both directions
+            run.set("node_limit", w.range(8, 70) as i64);
+        }
+        if w.chance(1, 3) {
+            // growth rules next to collapsing ones
+            let pool = rule_pool(run.get("p") as u32);
+            let idx = |n: &str| pool.iter().position(|r| r.name == n).unwrap() as i64;
+            let grow = ["add-comm", "distr", "add-assoc", "mul-comm", "let-intro", "sum-linear", "add-self", "neg-def"];
+            let fold = ["add-neg", "mul-zero", "add-zero", "mul-one", "neg-neg", "let-const", "sum-const", "factor"];
+            let mut r = Op::new("rules");
+            for _ in 0..w.range(1, 3) {
+                r = r.i(idx(*w.pick(&grow[..])));
+            }
+            for _ in 0..w.range(1, 3) {
+                r = r.i(idx(*w.pick(&fold[..])));
+            }
+            run.ops.retain(|o| o.name != "rules");
+            run.ops.push(r);
+        }
         // time limit in milliseconds of simulated time (run_eqsat: whole seconds)
         run.set("time_limit_ms", *w.pick(&[0, 1, 1000, 5000, 60000, 3_600_000]));
         // K6 clock behaviour
@@ -1196,6 +1252,9 @@ impl Check for StopCheck {
                 };
                 let elapsed_ns = seam::clock_now() - t_start;
                 reason_txt = format!("{:?}", rep.stop_reason);
+                if runner.iterations.windows(2).any(|w| w[1].num_nodes < w[0].num_nodes) {
+                    out.bump("node_count_shrank_between_iterations");
+                }
                 let nodes = s.eg.total_number_of_nodes();
                 if rep.egraph_nodes != nodes {
                     out.violations.push(v("report_node_count", format!("report says {} nodes, e-graph has {nodes}", rep.egraph_nodes)));
